@@ -73,6 +73,8 @@ def run01(ck):
         toks = ["0", "1", "7", "8", "15", "16", "31", "32", "255", "256", "2047", "2048", "65535", "65536", "00001", "007", "", " ", "/", ".", "-1", "+1", "1 ",
                 " 1", "١", "²", "٣٢", "x", "1e1", "0x1", "\n", "i-", "*"]
         texts = set(toks)
+        # very long numbers (the interpreter refuses to convert more than 4300 digits)
+        texts |= {"1" * 4300, "1" * 4301, "0" * 4400, "1/" + "2" * 4400, "1." + "2" * 4400 + ".3"}
         for n in (2, 3, 4):
             for _ in range(1500 if ck.tier == "quick" else 40000):
                 sep = rnd.choice(["/", ".", "/", ".", " ", "-", ""])
